@@ -30,10 +30,10 @@ pub fn sizes(ctx: &Ctx, layer: &str) -> Sizes {
         g3.extend_from_slice(&[x - 1, x, x + 1]);
     }
     match layer {
-        "miri" => Sizes { g1: 12, g2_cap: 2, g3: vec![127, 128] },
+        "miri" => Sizes { g1: if ctx.thorough { 4000 } else { 160 }, g2_cap: 2, g3: vec![127, 128] },
         "vg" => Sizes { g1: 1500, g2_cap: 8, g3: vec![127, 128, 16_383, 16_384] },
         "asan" => Sizes { g1: if ctx.thorough { 400_000 } else { 20_000 }, g2_cap: 64, g3 },
-        _ => Sizes { g1: if ctx.thorough { 3_000_000 } else { 30_000 }, g2_cap: if ctx.thorough { u32::MAX } else { 4096 }, g3 },
+        _ => Sizes { g1: if ctx.thorough { 3_000_000 } else { 300_000 }, g2_cap: if ctx.thorough { u32::MAX } else { 4096 }, g3 },
     }
 }
 
@@ -715,7 +715,7 @@ pub fn c09_case(c: &mut Ctx, r: &mut Rng, fam: Fam, rp: &RP, case: &Case) {
 pub fn c09(ctx: &mut Ctx, layer: &str) {
     let mut sz = sizes(ctx, layer);
     if !matches!(layer, "miri" | "vg") {
-        sz.g1 = if ctx.thorough { 1_500_000 } else { 30_000 };
+        sz.g1 = if ctx.thorough { 1_500_000 } else { 200_000 };
     }
     for_valid(ctx, &sz, c09_case);
 }
